@@ -29,6 +29,47 @@ claim('C19', 'other',
       "feature-matrix type checking + byte-level translation validation of the amalgamation + differential AST facts",
       "DESIGN.md section 4 C19")
 
+claim('C07', 'other',
+      "Decides the structural clauses: payload storage layout (size, offset, record alignment) is right for the payload "
+      "type for 12 payload types in TransitionT and TaskT and in every record embedding them; payload constructors set "
+      "payloadSet and placement-copy their payload parameter; no user-declared copy operations, so copies are memberwise; "
+      "payload() returns the storage iff payloadSet; the whole-object copy chain request -> pending -> current -> previous "
+      "as must-equalities (flow clause). Equality of payload bytes for every value is NOT decided (language-level "
+      "memberwise copy is trusted).",
+      "Trusted: clang's record layout for the x86-64 target of this sandbox; witness w_pay as the family of payload types.",
+      "type-level layout facts + structural constructor rules + must-equality dataflow",
+      "DESIGN.md section 4 C07")
+
+claim('C14', 'proof',
+      "Type-level proof over the library's own compile-time structure: for N states (quick 31 sizes up to 255, thorough "
+      "every N in 1..255, PeerRoot and Root, two compilers) stateId<S_k>() == k, the head has the invalid id, and a "
+      "template walker over the CS_ tree reached from R_::Apex shows every leaf k wraps S_k with STATE_ID == PRONG_INDEX "
+      "== k and every split node partitions its range at R_PRONG; a structural rule over every instantiated CS_ "
+      "dispatcher (branch on prong < R_PRONG, true->left, false->right, same kind, arguments unchanged) closes the "
+      "induction that wideX(control,k) reaches exactly leaf k; access<T>() is a derived-to-base conversion of the apex.",
+      "Trusted: clang 14 / gcc 12 template instantiation and constant evaluation; the walker templates in gen/nfamily.py.",
+      "static_assert obligations discharged by two compiler front ends + AST shape rule on dispatchers",
+      "DESIGN.md section 4 C14")
+
+claim('C15', 'other',
+      "Order rule on the CFGs of the instantiated S_ wrappers and A_ dispatchers: for states with 0..3 injections the "
+      "flattened sequence of resolved user callbacks is I1..Ik,state for set-up kinds and state,Ik..I1 for "
+      "exit/postUpdate/postReact, each exactly once and unconditionally; the two A_ patterns and the S_ wrappers are "
+      "checked as an induction step so every k is covered.",
+      "Trusted: clang's overload resolution of Head::X / First::X; witness w_inj.",
+      "CFG dominance-order rule over resolved callees + structural induction over template patterns",
+      "DESIGN.md section 4 C15")
+
+claim('C17', 'other',
+      "Decides the statement through its only possible causes in code of this shape: every scalar member of every FFSM2 "
+      "record is definitely initialised by every constructor; hand-written copy/move constructors copy every base and "
+      "member from the same base/member; copy/move construction of an automatically activated machine cannot reach "
+      "initialEnter; no mutable static state and no non-deterministic external call. Equality of two executions as such "
+      "is not decided.",
+      "Trusted: clang's constructor-initialiser lists incl. implicit ones; witnesses w_core/w_pay instantiate every class.",
+      "definite-initialisation and copy-coverage rules over record/constructor facts + call-graph reachability",
+      "DESIGN.md section 4 C17")
+
 ALL = ['C%02d' % i for i in range(1, 21)]
 for p in ALL:
     if p not in CLAIMED:
